@@ -115,8 +115,14 @@ def r2(F, R):
                 R.bad("C06-R2", wb.path + ":set", wsite, "tuning flag assigned %s outside the constructor" % vt_str(v))
         if n_false == 0:
             R.bad("C06-R2", b.path + ":clear", site, "tuning flag is never cleared")
-        # num_tune provenance
-        for (wb, bb, st, v, how) in K.field_writers(F, adt, "num_tune"):
+        # num_tune provenance (the field may live in a sub-struct of the strategy: take the owner from the guard that was found)
+        nt_owner = adt
+        for (wb, bb, st, v, how) in stores:
+            if how != "agg" and v[0] == "const" and v[2] == "false" and wb.path == b.path:
+                fr = Rl.find(Rl.edge_relations(wb, bb), "Ge", Rl.is_arg_named(wb, "draw"), Rl.is_self_field("num_tune"))
+                if fr:
+                    nt_owner = K.self_field_owner(F, adt, fr[1])
+        for (wb, bb, st, v, how) in K.field_writers(F, nt_owner, "num_tune"):
             wsite = "%s @%s" % (wb.path, loc(st["span"]))
             if how == "agg" and wb.fn_name == "new" and v[0] == "arg" and v[2] == "num_tune":
                 R.ok("C06-R2", wb.path + ":num_tune", wsite, "num_tune = constructor argument")
@@ -140,8 +146,8 @@ def is_mutator_call(b, t):
     return False
 
 
-def final_window_field(F, b, rels):
-    """Among relations `draw < self.F`, return F names."""
+def final_window_field(F, b, rels, with_tree=False):
+    """Among relations `draw < self.F`, return F names (with the operand tree of self.F on request)."""
     out = []
     for (o, l, r, _s) in rels:
         if r is None:
@@ -150,7 +156,7 @@ def final_window_field(F, b, rels):
             if op == "Lt" and x[0] == "arg" and x[2] == "draw":
                 n = Rl.self_field_name(y)
                 if n and n != "num_tune":
-                    out.append(n)
+                    out.append((n, y) if with_tree else n)
     return out
 
 
@@ -166,12 +172,12 @@ def r3(F, R):
             site = "%s @%s" % (b.path, loc(t["span"]))
             key = "%s:mutator#%d:%s" % (b.path, i, t["callee"]["name"])
             rels = Rl.edge_relations(b, bb)
-            ws = final_window_field(F, b, rels)
+            ws = final_window_field(F, b, rels, with_tree=True)
             good = None
             why = "no guard of the form draw < self.<final window>"
-            for w in ws:
-                # provenance of W in new()
-                prov = [x for x in K.field_writers(F, adt, w)]
+            for (w, wtree) in ws:
+                # provenance of W in new() (W may live in a sub-struct of the strategy)
+                prov = [x for x in K.field_writers(F, K.self_field_owner(F, adt, wtree), w)]
                 okp = bool(prov)
                 for (wb, wbb, st, v, how) in prov:
                     if how != "agg" or wb.fn_name != "new":
@@ -286,6 +292,13 @@ def r4(F, R):
                 o = [s for s in sides if s[0] == "bin" and s[1] in ("Sub", "SubWithOverflow") and Rl.self_field_name(s[2]) == "num_tune" and s[3][0] == "const" and s[3][2] == "1"]
                 o2 = [s for s in sides if s[0] == "field" and s[1][0] == "bin" and s[1][1].startswith("Sub") and Rl.self_field_name(s[1][2]) == "num_tune" and s[1][3][0] == "const" and s[1][3][2] == "1"]
                 okflag = bool(d and (o or o2))
+                # the same test written as `draw + 1 == self.num_tune`
+                nt = [s for s in sides if Rl.self_field_name(s) == "num_tune"]
+                inc = [s for s in sides if s[0] == "field" and s[1][0] == "bin" and s[1][1].startswith("Add") and
+                       any(x[0] == "arg" and x[2] == "draw" for x in (s[1][2], s[1][3])) and any(x[0] == "const" and x[2] == "1" for x in (s[1][2], s[1][3]))]
+                inc += [s for s in sides if s[0] == "bin" and s[1].startswith("Add") and
+                        any(x[0] == "arg" and x[2] == "draw" for x in (s[2], s[3])) and any(x[0] == "const" and x[2] == "1" for x in (s[2], s[3]))]
+                okflag = okflag or bool(nt and inc)
             if okflag:
                 R.ok("C06-R4", key1, "%s @%s" % (b.path, loc(t["span"])), "late estimator + update_stepsize(is_last = draw == num_tune - 1)")
             else:
